@@ -469,7 +469,7 @@ class Executor:
                     v = s2.env.get(name)
                     if isinstance(v, VOpt):
                         saved = v
-                        s2.env[name] = VNone if (b == none_when_true) else from_term(v.ty.val(v.t), v.ty.elem)
+                        s2.env[name] = self.narrow_value(v, none_when_true, b)
                         for s3, r in self.eval(s2, e.body if b else e.orelse):
                             s3.env[name] = saved
                             out.append((s3, r))
@@ -914,7 +914,7 @@ class Executor:
                     name, none_when_true = narrow
                     v = s3.env.get(name)
                     if isinstance(v, VOpt):
-                        s3.env[name] = VNone if (b == none_when_true) else from_term(v.ty.val(v.t), v.ty.elem)
+                        s3.env[name] = self.narrow_value(v, none_when_true, b)
                 out.extend(self.exec_block(s3, s.body if b else s.orelse))
             return out
         return self._lift(self.eval(st, s.test), k)
@@ -928,7 +928,21 @@ class Executor:
                 return (test.left.id, True)
             if isinstance(test.ops[0], ast.IsNot):
                 return (test.left.id, False)
+        # truthiness of an optional: `x` true => not None;  `not x` false => not None (the other side stays optional)
+        if isinstance(test, ast.Name) and isinstance(st.env.get(test.id), VOpt):
+            return (test.id, "some_if_true")
+        if isinstance(test, ast.UnaryOp) and isinstance(test.op, ast.Not) and isinstance(test.operand, ast.Name) \
+                and isinstance(st.env.get(test.operand.id), VOpt):
+            return (test.operand.id, "some_if_false")
         return None
+
+    def narrow_value(self, v, mode, b):
+        """value of an optional local in the branch where the test evaluated to b"""
+        if mode is True or mode is False:
+            return VNone if (b == mode) else from_term(v.ty.val(v.t), v.ty.elem)
+        if (mode == "some_if_true" and b) or (mode == "some_if_false" and not b):
+            return from_term(v.ty.val(v.t), v.ty.elem)
+        return v
 
     def ex_AnnAssign(self, st, s):
         if s.value is None:
